@@ -2512,7 +2512,7 @@ template< size_t L> inline
    if (pos1 >= mLength)
       return (len2 == 0) ? 0 : 1;
 
-   const size_t  use_len = (pos1 + count1 > mLength) ? (mLength - pos1) : count1;
+   const size_t  use_len = (count1 > mLength - pos1) ? (mLength - pos1) : count1;
    const size_t  max_cmp_len = std::min( use_len, len2);
    const int     cmp_result = std::memcmp( &mString[ pos1], str, max_cmp_len);
 
